@@ -2,6 +2,7 @@ package keeper
 
 import (
 	"context"
+	"encoding/hex"
 	"errors"
 
 	layertypes "github.com/tellor-io/layer/types"
@@ -34,6 +35,12 @@ func (k msgServer) SubmitValue(ctx context.Context, msg *types.MsgSubmitValue) (
 	reporterAddr, err := msg.GetSignerAndValidateMsg()
 	if err != nil {
 		return nil, err
+	}
+	// a value is validated without its 0x prefix; store it the same way, because aggregation
+	// and the bridge snapshots parse the stored string as plain hex
+	msg.Value = utils.Remove0xPrefix(msg.Value)
+	if _, err := hex.DecodeString(msg.Value); err != nil {
+		return nil, errorsmod.Wrap(types.ErrInvalidQueryData, "value must be a hex string")
 	}
 
 	isTokenBridgeDeposit, err := k.keeper.PreventBridgeWithdrawalReport(msg.QueryData)
